@@ -57,6 +57,15 @@ theorem expPc_firstPc (cfg : Cfg) (r : Req) : expPc cfg (firstPc r) := by cases 
 theorem expPc_wantSub (cfg : Cfg) (r : Req) (h : validReq cfg r = true) : expPc cfg (.wantSub r) := by
   cases r <;> simp_all [expPc, validReq]
 
+theorem expPc_afterStart (cfg : Cfg) (r : Req) (h : validReq cfg r = true) : expPc cfg (afterStart cfg r) := by
+  cases r with
+  | rw w m p e => by_cases hk : cfg.rw w m p = .calls <;> simp [afterStart, hk, expPc]
+  | activate s => exact expPc_wantSub cfg _ h
+  | _ => simp [afterStart, expPc]
+
+theorem expPc_afterCall (cfg : Cfg) (w m p e n) : expPc cfg (afterCall w m p e n) := by
+  unfold afterCall; split <;> simp [expPc]
+
 theorem expPc_relSub (cfg : Cfg) (r : Req) (h : expPc cfg (.wantSub r)) : expPc cfg (.relSub r) := by
   cases r <;> simp_all [expPc]
 
@@ -102,7 +111,7 @@ theorem expInv_stepH (cfg : Cfg) (σ σ' : State) (c : Conn) (hI : ExpInv cfg σ
       refine expInv_of cfg σ _ c hI htr (hoth _) ?_ rfl
       simp only [set_same]
       split
-      · rename_i hv; exact expPc_wantSub cfg r hv
+      · rename_i hv; exact expPc_afterStart cfg r hv
       · simp [expPc]
     · cases hs
   | wantSub r =>
@@ -149,6 +158,21 @@ theorem expInv_stepH (cfg : Cfg) (σ σ' : State) (c : Conn) (hI : ExpInv cfg σ
     simp only [Option.some.injEq] at hs; subst hs
     exact expInv_of cfg σ _ c hI (by rw [onlyExported_append]; exact ⟨htr, by simpa [exportedOk] using hc.1⟩) (hoth _)
       (by simp only [set_same, expPc]; exact ⟨hc.2.1, hc.2.2⟩) rfl
+  | wantAcc w m p e n =>
+    simp only [hpc] at hs
+    split at hs
+    · split at hs
+      · simp only [Option.some.injEq] at hs; subst hs
+        exact expInv_of cfg σ _ c hI htr (hoth _) (by simp [expPc]) rfl
+      · cases hs
+    · simp only [Option.some.injEq] at hs; subst hs
+      exact expInv_of cfg σ _ c hI htr (hoth _) (by simp [expPc]) rfl
+  | relAcc w m p e n =>
+    simp only [hpc] at hs
+    split at hs
+    · simp only [Option.some.injEq] at hs; subst hs
+      exact expInv_of cfg σ _ c hI htr (hoth _) (by simp only [set_same]; exact expPc_afterCall cfg w m p e n) rfl
+    · cases hs
   | relDisp r ok =>
     simp only [hpc] at hs
     simp only [Option.some.injEq] at hs; subst hs
@@ -233,6 +257,6 @@ theorem expInv_reach (cfg : Cfg) (hs us cache) (σ : State) (h : Reach cfg (init
     unfold step at hstep
     split at hstep
     · exact expInv_stepH cfg _ _ _ ih hstep
-    · exact expInv_stepU cfg _ _ _ _ ih hstep
+    · exact expInv_stepU cfg _ _ _ _ ih (stepUG_some hstep)
 
 end Frappy.Activate
